@@ -45,6 +45,13 @@ pub fn grid(tier: Tier) -> Vec<Body> {
             g.push(Body { gen: gen.to_string(), a: order, b: 0 });
         }
     }
+    // the threaded generator gets eight more cells per order: each cell draws its own CPU counts and
+    // schedulers from the run's seed
+    for _ in 0..8 {
+        for order in 1..=max_order(tier) {
+            g.push(Body { gen: "complete".to_string(), a: order, b: 0 });
+        }
+    }
     // every (m, n) with m + n <= 100 (quick) / 160 (thorough): runs longer than one 64-bit word of the
     // bit matrix, ending on and off word boundaries
     let lim = match tier {
